@@ -1,3 +1,4 @@
+import re
 from mindsdb_sql.parser.ast.base import ASTNode
 from mindsdb_sql.exceptions import ParsingException
 from mindsdb_sql.parser.utils import indent
@@ -198,6 +199,9 @@ class Interval(Operation):
 
         arg = self.args[0]
         items = arg.split(' ', maxsplit=1)
+        if len(items) == 2 and not re.fullmatch(r'[A-Za-z_]+', items[1]):
+            # more than `<value> <unit>`: the whole text is the literal
+            items = [arg]
         # quote first element
         items[0] = param_to_string(items[0])
         return "INTERVAL " + " ".join(items)
